@@ -279,7 +279,7 @@ ModelEvent ==
         cl == IF IsReg THEN <<>> ELSE Classes
     IN  [kind |-> IF IsReg THEN "reg" ELSE "cls", crit |-> inp.crit, maxDepth |-> inp.maxDepth,
          msl |-> inp.msl, mss |-> inp.mss, p |-> P, X |-> x2, y |-> inp.y, yden |-> 1,
-         nodes |-> sn, classes |-> cl, predOk |-> TRUE,
+         nodes |-> sn, classes |-> cl, predOk |-> TRUE, prec |-> "f64",
          pred |-> [r \in 1..Len(x2) |-> ValueOf(IF IsReg THEN "reg" ELSE "cls", sn[LeafOf(sn, x2[r])], cl)],
          Q |-> <<>>, predQ |-> <<>>]
 
@@ -294,7 +294,9 @@ TypeOK ==
 
 (* In exact arithmetic the recount in `split` always agrees with the counts of the sweep that
    chose the threshold, so the re-validation never fires: RejectSplit is dead in the model.
-   (With floating-point midpoints of adjacent doubles it is not; the model does not cover that.) *)
+   (In floating point the midpoint of two neighbouring doubles rounds onto one of them; the code
+   falls back to the lower value when it rounds up, so `x <= thr` still separates exactly the rows
+   the sweep counted -- the neighbouring-double training sets of the random binding exercise that.) *)
 RevalidationNeverFails ==
     (pc = "loop" /\ LoopGuard /\ queue # <<>>) =>
         LET v == Head(queue) IN
